@@ -99,12 +99,13 @@ def str_pre(names, length=1):
     out = []
     if length == '1-2':
         # the second ID of the list and the unknown ID 'x' have two characters, all others one: the solver may
-        # make a one-character ID the prefix or the suffix of a two-character one (fixed lengths do not fork)
+        # make a one-character ID the prefix or the suffix of a two-character one, or pad it with a space
+        # (fixed lengths do not fork)
         for i, n in enumerate(names):
             if i == 1 or n == 'x':
-                out += ['len(%s) == 2' % n, '33 <= ord(%s[0]) <= 126' % n, '33 <= ord(%s[1]) <= 126' % n]
+                out += ['len(%s) == 2' % n, '32 <= ord(%s[0]) <= 126' % n, '32 <= ord(%s[1]) <= 126' % n]
             else:
-                out += ['len(%s) == 1' % n, '33 <= ord(%s) <= 126' % n]
+                out += ['len(%s) == 1' % n, '32 <= ord(%s) <= 126' % n]
         return out
     for n in names:
         out.append('len(%s) == %d' % (n, length))
